@@ -15,6 +15,10 @@ import NeumannModel.Vault.Model
     rawedge <ent> e|s <dst> <edge-type> <cap 0..3|9> <sigOk 0|1> d|u   (raw graph edge of ANY type, classified by the
             model's `kindOfType`; `u` = undirected: listed among the outgoing edges of both ends)
     perm <now> <req> <sec>
+    getver <now> <req> <sec> <ver>    vercount <now> <req> <sec>    rollback <now> <req> <sec> <ver>
+    batchget <now> <req> <s,s,..>     batchset <now> <req> <sec:val:size,..>
+    wrap <now> <req> <sec>            unwrap <token-number>
+    undelegatec <now> <parent> <child>                  reopen <now>
 -/
 open Neumann Neumann.Proto Neumann.Vault
 
@@ -27,6 +31,14 @@ def showResp : Resp → String
   | .value v => s!"ok v{v}"
   | .names l => "ok " ++ showNats (l.mergeSort (· ≤ ·))
   | .level l => s!"ok l{l.toNat}"
+  | .num n => s!"ok n{n}"
+  | .items l =>
+    if l.isEmpty then "ok -" else "ok " ++ ",".intercalate (l.map fun
+      | .done => "d" | .val v => s!"v{v}" | .err e => "e:" ++ showErr e)
+  | .pairs l =>
+    -- canonical: sorted by (parent, child)
+    let l := l.mergeSort (fun a b => a.1 < b.1 || (a.1 = b.1 && a.2 ≤ b.2))
+    if l.isEmpty then "ok -" else "ok " ++ ",".intercalate (l.map fun p => s!"{p.1}>{p.2}")
   | .err e => "err " ++ showErr e
 
 def parsePattern (s : String) : Option Pattern :=
@@ -37,6 +49,13 @@ def parsePattern (s : String) : Option Pattern :=
     | _ => none
 
 def nats (ws : List String) : Option (List Nat) := ws.mapM (·.toNat?)
+
+def parseEntries (s : String) : Option (List (Nat × Nat × Nat)) :=
+  if s = "-" then some [] else
+  (s.splitOn ",").mapM fun e =>
+    match (e.splitOn ":").mapM (·.toNat?) with
+    | some [a, b, c] => some (a, b, c)
+    | _ => none
 
 def vaultStep (s : State) (line : String) : State × String :=
   let bad := (s, "bad-op")
@@ -87,10 +106,27 @@ def vaultStep (s : State) (line : String) : State × String :=
         if (dk ≠ "e" ∧ dk ≠ "s") ∨ (dir ≠ "d" ∧ dir ≠ "u") then bad else
         let d := if dk = "s" then secNode dst else entNode dst
         let k := kindOfType ty.toList (Level.ofNat? cap) (sig = 1)
-        let e1 : Edge := { id := s.nextId, src := entNode ent, dst := d, kind := k }
-        let e2 : Edge := { id := s.nextId + 1, src := d, dst := entNode ent, kind := k }
-        ({ s with graph := s.graph ++ (if dir = "u" then [e1, e2] else [e1]), nextId := s.nextId + 2 }, "ok")
+        let s1 := (s.addEdge (entNode ent) d k).1
+        (if dir = "u" then (s1.addEdge d (entNode ent) k).1 else s1, "ok")
       | _, _, _, _ => bad
+  | "getver" :: rest => match nats rest with
+      | some [now, req, sec, ver] => fin (s.getVersion now req sec ver) | _ => bad
+  | "vercount" :: rest => match nats rest with
+      | some [now, req, sec] => fin (s.versionCount now req sec) | _ => bad
+  | "rollback" :: rest => match nats rest with
+      | some [now, req, sec, ver] => fin (s.rollback now req sec ver) | _ => bad
+  | ["batchget", now, req, secs] => match now.toNat?, req.toNat?, parseNats secs with
+      | some now, some req, some secs => fin (s.batchGet now req secs) | _, _, _ => bad
+  | ["batchset", now, req, es] => match now.toNat?, req.toNat?, parseEntries es with
+      | some now, some req, some es => fin (s.batchSet now req es) | _, _, _ => bad
+  | "wrap" :: rest => match nats rest with
+      | some [now, req, sec] => fin (s.wrap now req sec) | _ => bad
+  | "unwrap" :: rest => match nats rest with
+      | some [tok] => fin (s.unwrap tok) | _ => bad
+  | "undelegatec" :: rest => match nats rest with
+      | some [_, p, c] => fin (s.undelegateCascade p c) | _ => bad
+  | "reopen" :: rest => match nats rest with
+      | some [now] => fin (s.reopen now) | _ => bad
   | "perm" :: rest => match nats rest with
       | some [now, req, sec] =>
         -- `Vault::get_permission`: a non-root caller expires grants first (state effect kept)
